@@ -143,6 +143,26 @@ func init() {
 			})
 	})
 
+	// setproduct: a tuple argument with a dynamically-typed member unifies to
+	// the dynamic placeholder, per-element conversion is then a no-op and
+	// tuples of different types are collected into one list / set.
+	regKnown("c11SetProductTupleDynamicMember", func(in builtCase, f *facet.Failure) bool {
+		if in.Fn != "setproduct" || !isPanicErr(f) || !(strings.HasPrefix(panicText(f), "inconsistent list element types") || strings.HasPrefix(panicText(f), "inconsistent set element types")) {
+			return false
+		}
+		return anyArg(in, func(v cty.Value) bool {
+			if !v.Type().IsTupleType() {
+				return false
+			}
+			for _, et := range v.Type().TupleElementTypes() {
+				if et == cty.DynamicPseudoType {
+					return true
+				}
+			}
+			return false
+		})
+	})
+
 	// slice: an unknown list whose length bounds coincide has a known Length(),
 	// and the index check then calls LengthInt on the unknown list.
 	regKnown("c11SliceUnknownExactLength", func(in builtCase, f *facet.Failure) bool {
